@@ -520,6 +520,11 @@ static int writer_dump_object_index(struct reftable_writer *w)
 	if (w->obj_index_tree) {
 		infix_walk(w->obj_index_tree, &update_common, &common);
 	}
+	if (common.max + 1 >= (1 << 5)) {
+		/* The footer has only 5 bits for the abbreviation length. The
+		 * object index is optional, so leave it out. */
+		return 0;
+	}
 	w->stats.object_id_len = common.max + 1;
 
 	writer_reinit_block_writer(w, BLOCK_TYPE_OBJ);
